@@ -103,7 +103,7 @@ def run_one(lz4c, b, d, case):
 def run(ctx):
     q = ctx.tier == "quick"
     ctx.rule = ("all 160 flag vectors (size x -bc x -sc x -l) from TLC x {file argument, stdin/stdout} x input classes {0, 1, 3000, B-1, B, B+1, "
-                "2B+3} (thinned per vector in quick) x file modes {0600, 0640, 0644, 0755, 0444, 0400, 0555}; distinct = distinct (flags, operation, input class, mode)")
+                "2B+3} (thinned per vector in quick), 3 blocks stored differently (raw, text, zeros) with -c 1 / -c 4, x file modes {0600, 0640, 0644, 0755, 0444, 0400, 0555}; distinct = distinct (flags, operation, input class, mode)")
     b = vlib.build_harness()
     d = vlib.scratch("c20")
     lz4c = build_lz4c(d)
@@ -137,6 +137,19 @@ def run(ctx):
                 datas[key] = bytes(buf[:n])
             cases.append({"id": len(cases) + 1, "flags": v["flags"], "opts": v["opts"], "files": (vi + ci) % 2 == 0, "data": datas[key],
                           "mode": modes[(vi + ci) % len(modes)], "conc": [0, 1, 4][(vi + ci) % 3], "n": n, "datakey": key})
+    # multi-block files whose blocks are stored differently (incompressible, then text, then zeros), with -c 1 and -c 4
+    k = 0
+    for vi, v in enumerate(vectors):
+        if v["flags"]["size"] != "64K" or v["flags"]["l"] >= 4 or (q and vi % 3):
+            continue
+        B = 65536
+        r2 = random.Random(977 + k)
+        data = bytes(r2.randrange(256) for _ in range(B)) + (b"lorem ipsum dolor sit amet " * (B // 27 + 1))[:B] + bytes(B) + bytes(r2.randrange(256) for _ in range(5))
+        key = (-1, k % 2)
+        datas.setdefault(key, data)
+        cases.append({"id": len(cases) + 1, "flags": v["flags"], "opts": v["opts"], "files": k % 2 == 0, "data": datas[key],
+                      "mode": modes[k % len(modes)], "conc": [1, 4][k % 2], "n": len(data), "datakey": key})
+        k += 1
     # library Writer output for (options, data): what the command must emit
     libcases, libkey = [], {}
     for c in cases:
